@@ -369,7 +369,7 @@ func buildFileNested(name, pkg, protoPkg, goImport string, msgs []absd.Msg, with
 		sci.Location = append([]*descriptor.SourceCodeInfo_Location{
 			{Path: []int32{}, Span: []int32{0, 0, int32(10*len(msgs) + 9), 1}},
 			{Path: []int32{12}, Span: []int32{0, 0, 18}, LeadingComments: proto.String(" the syntax line\n")},
-			{Path: []int32{2}, Span: []int32{1, 0, 12}, LeadingComments: proto.String(" the package of the file\n")},
+			{Path: []int32{2}, Span: []int32{1, 0, 12}, LeadingComments: proto.String(" the package of the file\n everything declared here belongs to package " + pkg + "\n")},
 		}, sci.Location...)
 		fd.SourceCodeInfo = sci
 	}
